@@ -38,12 +38,17 @@ type lkPeer struct {
 	Raw    bool   `json:"raw,omitempty"`    // answer with the raw list instead of the K nearest of it
 	Group  int    `json:"group"`            // IP group (/16); -1 = no address
 	Priv   bool   `json:"priv,omitempty"`   // address of the class the query filter rejects
+	Val    int    `json:"val,omitempty"`    // GET_VALUE: 0 none; 1..9 valid record of that rank; -1 invalid; -2 record for another key; -3 empty value; -4 malformed value
+	Provs  []int  `json:"provs,omitempty"`  // GET_PROVIDERS: provider refs (as Knows)
+	PNoAdr bool   `json:"pnoaddr,omitempty"` // providers listed without addresses
+	Put    string `json:"put,omitempty"`    // PUT_VALUE / ADD_PROVIDER treatment: "" ok | fail | hang
 }
 
 type lkSc struct {
 	K        int      `json:"k"`
 	Alpha    int      `json:"alpha"`
 	Beta     int      `json:"beta"`
+	KeyKind  int      `json:"key_kind,omitempty"`  // 0: multihash from the key pool; 2: value key "/v/k<Key>"
 	Key      int      `json:"key"`                 // key pool index
 	KeyPeer  int      `json:"key_peer,omitempty"`  // >0: the key is the id of Peers[KeyPeer-1] (FindPeer-style target)
 	Self     int      `json:"self"`                // peer pool index of the local node
@@ -59,6 +64,9 @@ const unknownBase = 8000 // pool indices of peers that liars may name but that d
 func (s *lkSc) keyString() string {
 	if s.KeyPeer > 0 && len(s.Peers) > 0 {
 		return ppool().IDs[s.Peers[(s.KeyPeer-1)%len(s.Peers)].ID]
+	}
+	if s.KeyKind == 2 {
+		return fmt.Sprintf("/v/k%d", s.Key)
 	}
 	return kpoolS().IDs[s.Key%simPool]
 }
